@@ -432,6 +432,12 @@ def gen_server_case(real, rng, cid, n_iter=50, n_clients=3, hostile=0.3, mtu=150
                     elif how == "retype":
                         d = d[:12] + bytes([(d[12] + rng.randint(1, 7)) % 8]) + d[13:]     # always a different type
                     addr = cl["addr"] if rng.random() < 0.7 else (str(90), 7)
+                elif r < 0.8 and crun.eps["S"]["emits"] and any(c for c in clients.values()):
+                    # reflection: a datagram the SERVER sent, thrown back at it from a client's (spoofed) address
+                    kk = rng.randrange(max(0, len(crun.eps["S"]["emits"]) - 6), len(crun.eps["S"]["emits"]))
+                    cl = rng.choice([c for c in clients.values() if c])
+                    items.append((cl["addr"], crun.eps["S"]["emits"][kk], "@S:%d" % kk))
+                    continue
                 elif r < 0.85:
                     d = short_hello(real, rng, tq)
                     addr = (str(rng.choice([66, 92, 93, 94])), rng.randint(1, 3))
@@ -603,3 +609,46 @@ def honest_monitor(case, recs, log, ctx):
                 a = addr_of.get(int(p[1]))
                 if a is not None and conn_at.get(a, (None,))[0] == int(p[1]):
                     del conn_at[a]
+
+def silence_monitor(case, recs, ctx):
+    """dead peers are detected: a connected client from whose address nothing new has arrived for connection_timeout (copies of datagrams
+    the server already has, damaged copies and forgeries do not count) has its disconnect event by the next sweep"""
+    ct = None
+    for l in case:
+        if l.startswith("scfg "):
+            for x in l.split():
+                if x.startswith("ct="):
+                    ct = int(x[3:])
+    if ct is None:
+        return
+    conn = {}             # oid -> {"addr", "last": clock of the last iteration in which something new arrived}
+    had = {}              # addr -> set of datagram specs already delivered from it
+    for i, rec in enumerate(recs):
+        fresh = set()
+        for (addr, d, spec), ok in zip(rec["items"], rec["accepted"]):
+            if not ok or not spec.startswith(("@", "!")):
+                continue
+            if spec in had.setdefault(addr, set()):
+                continue
+            if any(c["addr"] == addr for c in conn.values()):
+                # only what reached an already connected client counts as "the server has it": a datagram that arrived during the
+                # handshake was not processed, its later copy is new
+                had[addr].add(spec)
+            fresh.add(addr)
+        for e in rec["events"]:
+            p = e.split(":")
+            if p[0] == "connect":
+                conn[int(p[1])] = {"addr": (p[2], int(p[3])), "last": rec["tq"]}
+            elif p[0] == "disc":
+                conn.pop(int(p[1]), None)
+        for oid, c in conn.items():
+            if c["addr"] in fresh:
+                c["last"] = rec["tq"]
+        late = [(oid, rec["ts"] - c["last"]) for oid, c in conn.items() if rec["ts"] - c["last"] >= ct]
+        if late:
+            ctx.failure("silent-client-not-disconnected",
+                        "iteration %d (sweep at %d): connection(s) %s still connected although nothing new has arrived from their address for "
+                        ">= connection_timeout %d ticks (only copies of datagrams the server already had, or nothing)" %
+                        (i, rec["ts"], late[:3], ct), {"case": case, "at": len(case) - 2, "iteration": i})
+            return
+    ctx.count("silence:cases-checked")
